@@ -25,12 +25,12 @@ ASSUMPTIONS = [
 ]
 REQUIRED = {
     "quick": {"chunks_probed_algebraically": 300, "recursion_points": 50000, "class/correlated_config": 40,
-              "class/zero_volatility_market": 40, "class/change_point": 150, "class/shock_change": 30,
+              "class/zero_volatility_market": 25, "class/change_point": 150, "class/shock_change": 30,
               "class/correlation_change": 30, "class/crossed_2_chunks": 40, "statistical_runs": 2,
               "history_prefix_checks": 150, "class/late_start_market": 10,
               "class/refused_parameter_request_then_normal_use": 15},
     "thorough": {"chunks_probed_algebraically": 9000, "recursion_points": 1500000, "class/correlated_config": 1200,
-                 "class/zero_volatility_market": 1200, "class/change_point": 4500, "class/shock_change": 900,
+                 "class/zero_volatility_market": 900, "class/change_point": 4500, "class/shock_change": 900,
                  "class/correlation_change": 900, "class/crossed_2_chunks": 1200, "statistical_runs": 40,
                  "history_prefix_checks": 4500, "class/late_start_market": 300,
                  "class/refused_parameter_request_then_normal_use": 450},
